@@ -126,7 +126,7 @@ def c01(res):
 
 
 def c03(res):
-    T.run_tv(res, {"F6", "F6R", "F11", "F13"}, {"ledger"},
+    T.run_tv(res, {"F6", "F6R", "F11", "F13"}, {"ledger"}, known_roles={k["role"] for k in known_findings() if k["property"] == "C03"},
              note="ownership ledger per feasible path: no double drop, no use after drop, no drop of uninitialised memory, nothing live at return")
     finish_t(res, T.TRUST_T + ["host functions take ownership of by-value arguments (mk/eat/peek models in tv.py)"])
 
